@@ -330,10 +330,23 @@ Definition check_c05 (c : c05case) : N :=
        ((if c05_single c then C05_single_obs (impl_trace (c05_c c)) else true) && C05_fail_obs (c05_c c) (c05_skips c)).
 
 From Cache Require Import Ctx.
+
+(* everything observed before the Get [t] was called *)
+Fixpoint events_before_spawn (t : tid) (ls : list mlabel) : list fev :=
+  match ls with
+  | [] => []
+  | l :: r =>
+      match l with
+      | MSpawn t' _ _ _ _ _ _ => if (t =? t')%N then [] else (label_obs l).1 ++ events_before_spawn t r
+      | _ => (label_obs l).1 ++ events_before_spawn t r
+      end
+  end.
+
 Record c06case := C06Case { c06_c : fcase; c06_gets : list getinfo; c06_ctx : list ctxobs }.
 Definition check_c06 (c : c06case) : N :=
   code (corr_ok (c06_c c) && forallb ctxobs_agree (c06_ctx c))
-       (forallb (c06_get_ok (f_update_ttl (fc_cfg (c06_c c))) (impl_trace (c06_c c))) (c06_gets c)
+       (forallb (fun g => c06_get_ok (f_update_ttl (fc_cfg (c06_c c))) (impl_trace (c06_c c))
+                                     (events_before_spawn (g_tid g) (fc_labels (c06_c c))) g) (c06_gets c)
         && forallb ctxobs_prop (c06_ctx c)).
 
 Record c03case := C03Case { c03_c : fcase; c03_tid : tid; c03_hit : option err; c03_built : val + Z }.
